@@ -151,8 +151,135 @@ def cases(draw, tier):
     return {"ir": ir, "cfg": {"literal_enums": draw(st.booleans())}, "calls": calls}
 
 
+@st.composite
+def client_histories(draw):
+    """Histories over the generated client classes themselves: credentials must follow the client object that sends."""
+    n = draw(st.integers(2, 7))
+    steps = [{"op": "new", "token": "tokA", "prefix": draw(st.sampled_from([None, "Token", ""])), "header": draw(st.sampled_from([None, "X-Auth"])),
+              "shared_headers": draw(st.booleans())}]
+    n_clients = 1
+    for _ in range(n):
+        r = draw(st.integers(0, 9))
+        if r <= 3:
+            steps.append({"op": "send", "client": draw(st.integers(0, n_clients - 1)), "variant": draw(st.sampled_from(["sync", "asyncio"]))})
+        elif r <= 5:
+            steps.append({"op": "derive", "client": draw(st.integers(0, n_clients - 1)), "how": draw(st.sampled_from(["with_headers", "with_cookies", "with_timeout"]))})
+            n_clients += 1
+        elif r <= 7:
+            steps.append({"op": "set_token", "client": draw(st.integers(0, n_clients - 1)), "token": "tok" + draw(st.sampled_from("BCDE"))})
+        else:
+            steps.append({"op": "new", "token": "tok" + draw(st.sampled_from("FGH")), "prefix": draw(st.sampled_from([None, "Token", ""])),
+                          "header": draw(st.sampled_from([None, "X-Auth"])), "shared_headers": draw(st.booleans())})
+            n_clients += 1
+    steps.append({"op": "send", "client": n_clients - 1, "variant": "sync"})
+    return {"kind": "client_history", "steps": steps}
+
+
 def strategy(tier):
-    return cases(tier)
+    return st.one_of(cases(tier), cases(tier), cases(tier), cases(tier), client_histories())
+
+
+HISTORY_DOC = {"openapi": "3.0.3", "info": {"title": "Verif API", "version": "1"},
+               "paths": {"/secure": {"get": {"operationId": "getSecure", "security": [{"b": []}], "responses": {"200": {"description": "ok"}}}}},
+               "components": {"securitySchemes": {"b": {"type": "http", "scheme": "bearer"}}}}
+
+
+def _run_client_history(case, ctx):
+    import httpx
+
+    res = sut.generate(HISTORY_DOC)
+    try:
+        if res.exc is not None or not res.accepted:
+            ctx.skip("generator_rejected_or_crashed")
+            return
+        try:
+            pkg = sut.Loaded(res.package_dir)
+        except BaseException as e:  # noqa: BLE001
+            if behave._is_ctl(e):
+                raise
+            ctx.skip("import_failed")
+            return
+        with pkg:
+            mod = pkg.mod("api.default.get_secure")
+            AC = pkg.client.AuthenticatedClient
+            shared = {"x-shared": "1"}
+            clients = []      # [client, capture, expected extra headers, expected cookies, built?]
+            for si, st_ in enumerate(case["steps"]):
+                ctx.evals()
+                if st_["op"] == "new":
+                    cap = http.Capture(status=418)
+                    kw = {"base_url": "http://verif.invalid", "token": st_["token"], "httpx_args": {"transport": cap.transport()}}
+                    if st_.get("prefix") is not None:
+                        kw["prefix"] = st_["prefix"]
+                    if st_.get("header") is not None:
+                        kw["auth_header_name"] = st_["header"]
+                    if st_.get("shared_headers"):
+                        kw["headers"] = shared    # the same dict object handed to several clients
+                    clients.append({"c": AC(**kw), "cap": cap, "extra": {}, "cookies": {}, "built": None})
+                elif st_["op"] == "derive":
+                    src = clients[st_["client"] % len(clients)]
+                    try:
+                        if st_["how"] == "with_headers":
+                            c2 = src["c"].with_headers({f"x-derived-{si}": "d"})
+                            extra = {**src["extra"], f"x-derived-{si}": "d"}
+                            ck = dict(src["cookies"])
+                        elif st_["how"] == "with_cookies":
+                            c2 = src["c"].with_cookies({f"ck{si}": "v"})
+                            extra = dict(src["extra"])
+                            ck = {**src["cookies"], f"ck{si}": "v"}
+                        else:
+                            c2 = src["c"].with_timeout(httpx.Timeout(5.0))
+                            extra, ck = dict(src["extra"]), dict(src["cookies"])
+                    except BaseException as e:  # noqa: BLE001
+                        if behave._is_ctl(e):
+                            raise
+                        ctx.violation("client.derive_works", {"how": st_["how"], "exc": type(e).__name__}, repr(e)[:200])
+                        return
+                    clients.append({"c": c2, "cap": src["cap"], "extra": extra, "cookies": ck, "built": None})
+                elif st_["op"] == "set_token":
+                    clients[st_["client"] % len(clients)]["c"].token = st_["token"]
+                else:
+                    ent = clients[st_["client"] % len(clients)]
+                    c = ent["c"]
+                    ent["built"] = ent["built"] or {}
+                    first_use = st_["variant"] not in ent["built"]
+                    if first_use:   # the blocking and the asyncio httpx client are each built on their own first use
+                        pfx = c.prefix
+                        ent["built"][st_["variant"]] = (c.auth_header_name, f"{pfx} {c.token}" if pfx else c.token)
+                    n0 = len(ent["cap"].requests)
+                    try:
+                        if st_["variant"] == "sync":
+                            mod.sync_detailed(client=c)
+                        else:
+                            http.run_async(mod.asyncio_detailed, client=c)
+                    except BaseException as e:  # noqa: BLE001
+                        if behave._is_ctl(e):
+                            raise
+                        ctx.violation("client.call_works", {"exc": type(e).__name__, "variant": st_["variant"]}, repr(e)[:200])
+                        return
+                    if len(ent["cap"].requests) != n0 + 1:
+                        ctx.violation("request.exactly_one", {"history": True}, str(len(ent["cap"].requests) - n0))
+                        continue
+                    hm = http.header_map(ent["cap"].requests[-1])
+                    hname, hval = ent["built"][st_["variant"]]
+                    # the variant used first builds its own httpx client: both must carry the credential this object had then
+                    if hm.get(hname.lower(), [None])[0] != hval:
+                        ctx.violation("history.credential_of_the_sending_client", {"first_use": first_use, "variant": st_["variant"]},
+                                      f"step {si}: want {hname}: {hval!r}, got {hm.get(hname.lower())!r}; steps={case['steps']!r}"[:500])
+                    for k, v in ent["extra"].items():
+                        if hm.get(k.lower(), [None])[0] != v:
+                            ctx.violation("history.derived_headers_sent", {"variant": st_["variant"]}, f"{k} missing at step {si}")
+                    ck = http.cookies_of(ent["cap"].requests[-1])
+                    for k, v in ent["cookies"].items():
+                        if ck.get(k) != v:
+                            ctx.violation("history.derived_cookies_sent", {"variant": st_["variant"]}, f"{k} missing at step {si}")
+            ctx.nontrivial(case)
+            ctx.sample = case
+            ctx.label("client_history")
+            for ent in clients:
+                http.close_client(ent["c"])
+    finally:
+        env.rm(res.out)
 
 
 # ------------------------------------------------------------------------------------------------ oracle
@@ -372,6 +499,8 @@ def _norm_capture(req):
 
 
 def run(case, ctx):
+    if case.get("kind") == "client_history":
+        return _run_client_history(case, ctx)
     ir = case["ir"]
     comps = docs.comp_map(ir)
     doc = docs.render(ir)
